@@ -42,7 +42,12 @@ Fixpoint nondecreasing (l : list fired) : bool :=
 Definition count_fired (x : fired) (l : list fired) : nat := length (filter (fired_eqb x) l).
 
 (* ---------- key groups of the keys of a history, computed once per case with the KeySpace model ---------- *)
-Definition op_keys (o : op) : list bytes := match o with SetTimer k _ => [k] | _ => [] end.
+Definition op_keys (o : op) : list bytes :=
+  match o with
+  | SetTimer k _ => [k]
+  | AdvanceSet _ _ during => map (fun e => snd (fst e)) during
+  | _ => []
+  end.
 Fixpoint add_key (k : bytes) (l : list bytes) : list bytes :=
   match l with
   | [] => [k]
@@ -62,7 +67,23 @@ Definition ospec_new (srids : list N) (pending : list fired) : ospec :=
   {| o_pending := pending; o_ups := fold_left (fun l id => ups_set id 0%Z l) srids []; o_wm := zero_time |}.
 Definition o_add (x : fired) (l : list fired) : list fired := if existsb (fired_eqb x) l then l else x :: l.
 
-(* returns the failure codes of this step (empty for SetTimer / Restore), consuming the observed outputs *)
+(* one advance of the oracle: the due timers, and the state afterwards.  SetTimer calls after the n-th yield happen iff
+   at least n timers are due; they are subject to the guard with the new composite watermark. *)
+Definition o_advance (sender : N) (wm : Z) (during : list (nat * bytes * Z)) (s : ospec) : list fired * ospec :=
+  let ups := ups_set sender wm (o_ups s) in
+  let cw := ups_min ups in
+  let due := filter (fun x => (snd x <=? cw)%Z) (o_pending s) in
+  let rest := filter (fun x => negb (snd x <=? cw)%Z) (o_pending s) in
+  let rest' := fold_left (fun l e => let '(a, k, t) := e in
+                            if (1 <=? a)%nat && (a <=? length due)%nat && (cw <? t)%Z then o_add (k, t) l else l) during rest in
+  (due, {| o_pending := rest'; o_ups := ups; o_wm := cw |}).
+
+Definition o_check (out due : list fired) : list N :=
+  (if nondecreasing out then [] else [10]) ++
+  (if forallb (fun x => (count_fired x out <=? count_fired x due)%nat) out then [] else [11]) ++
+  (if forallb (fun x => (count_fired x due <=? count_fired x out)%nat) due then [] else [12]).
+
+(* returns the failure codes of the advances, consuming the observed outputs *)
 Fixpoint oracle (srids : list N) (ops : list op) (obs : list (list fired)) (s : ospec) : list N :=
   match ops with
   | [] => []
@@ -71,23 +92,25 @@ Fixpoint oracle (srids : list N) (ops : list op) (obs : list (list fired)) (s : 
         (if (o_wm s <? t)%Z then {| o_pending := o_add (k, t) (o_pending s); o_ups := o_ups s; o_wm := o_wm s |} else s)
   | Restore :: r => oracle srids r obs (ospec_new srids (o_pending s))
   | Advance sender wm :: r =>
-      let ups := ups_set sender wm (o_ups s) in
-      let cw := ups_min ups in
-      let due := filter (fun x => (snd x <=? cw)%Z) (o_pending s) in
-      let rest := filter (fun x => negb (snd x <=? cw)%Z) (o_pending s) in
-      let s' := {| o_pending := rest; o_ups := ups; o_wm := cw |} in
+      let '(due, s') := o_advance sender wm [] s in
       match obs with
       | [] => [1]
-      | out :: obs' =>
-          (if nondecreasing out then [] else [10]) ++
-          (if forallb (fun x => (count_fired x out <=? count_fired x due)%nat) out then [] else [11]) ++
-          (if forallb (fun x => (count_fired x due <=? count_fired x out)%nat) due then [] else [12]) ++
-          oracle srids r obs' s'
+      | out :: obs' => o_check out due ++ oracle srids r obs' s'
+      end
+  | AdvanceSet sender wm during :: r =>
+      let '(due, s') := o_advance sender wm during s in
+      match obs with
+      | [] => [1]
+      | out :: obs' => o_check out due ++ oracle srids r obs' s'
       end
   end.
 
 Definition pre_epoch (ops : list op) : bool :=
-  existsb (fun o => match o with SetTimer _ t => (t <? 0)%Z | _ => false end) ops.
+  existsb (fun o => match o with
+                    | SetTimer _ t => (t <? 0)%Z
+                    | AdvanceSet _ _ during => existsb (fun e => (snd e <? 0)%Z) during
+                    | _ => false
+                    end) ops.
 
 Fixpoint dedup (l : list N) : list N :=
   match l with
@@ -101,7 +124,7 @@ Definition check_case (c : case) : list N :=
       let tbl := kg_table count ops in
       let cfg := {| cf_q := quirks_now; cf_kgf := kg_lookup tbl; cf_start := start; cf_size := size;
                     cf_cache := cache; cf_srids := srids |} in
-      let model := fst (run cfg ops (sys_new cfg [])) in
+      let model := fst (TimerRegistry.run cfg ops (sys_new cfg [])) in
       let m :=
         if (length model =? length observed)%nat
         then if list_eqb (list_eqb fired_eqb) (map sort_fired model) (map sort_fired observed) then [] else [2]
